@@ -1,7 +1,8 @@
-from specs.common import run, ASSUME_COMMON
+from specs.common import run, memcheck, ASSUME_COMMON
 
 SPEC = {
-    "runs": [run("e1-model", "c14_tracestate", "asan", 5000, 500000, need_lib=False)],
+    "runs": [run("e1-model", "c14_tracestate", "asan", 5000, 500000, need_lib=False),
+             memcheck("c14_tracestate", 500, 25000, need_lib=False)],
     "floors": {
         "quick": {"set_present_key": 1000, "ops_at_size_32": 300, "roundtrip_ge10_members": 300,
                   "headers_valid": 1000, "headers_invalid": 500, "headers_over_32": 200, "delete_present_key": 500},
